@@ -54,11 +54,16 @@ class C20(Prop):
             ops += body1 + [{"op": "counters"}, {"op": "dumpfs"}, clean_op(), {"op": "dumpfs"}, {"op": "newprocess"}, cfg0, G.op_setenv(env2[0], env2[1])]
             ops += G.interleave(r, [G.run_program(r, prog2, 1), [dict(e) for e in extra]]) + [{"op": "counters"}, {"op": "dumpfs"}, clean_op(), {"op": "dumpfs"}]
             cases.append({"ci": False, "updvar": r.choice(["unset", "true"]), "colour": False, "ops": ops, "meta": {}})
-        # file-system failures (outside the model: "FS calls succeed"): the snapshot directory cannot be created
+        # file-system failures (outside the model: "FS calls succeed"): the snapshot directory cannot be created / file unreadable
         for i in range(n // 10):
             r = rng.fork()
             t = r.choice(G.TEST_NAMES)
             ops = [G.op_putfile(b"blocker", b"i am a regular file"), G.op_newconfig(dir=b"blocker/sub"), G.op_newconfig(dir=b"ok")]
+            if r.chance(1, 2):
+                # the snapshot FILE cannot be read: a directory sits at its path (multi-entry and first standalone file)
+                ops += [{"op": "putdir", "path": hx(b"ok/zz_verif_trace_test.snap")},
+                        {"op": "putdir", "path": hx(b"ok/" + t.replace(b"/", b"_") + b"_1.snap")},
+                        {"op": "putdir", "path": hx(b"ok/" + t.replace(b"/", b"_") + b"_1.snap.json")}]
             calls = []
             for _ in range(r.range(2, 5)):
                 h = r.choice([1, 1, 2])
